@@ -436,6 +436,13 @@ def run(run):
     seqs = interval_seqs(pts, 5 if thorough else 4)
     tvals = [None] + [base + k / 2.0 for k in range(-2 if ph else 0, 2 * npts + 1)]
     run.explore("adjust_intervals", mod, "shard_adjust", [(ch, tvals) for ch in core.chunks(seqs, 64)])
+    # a time axis that crosses zero (adjust_intervals does not validate, and t_min / t_max == 0.0 must behave like
+    # any other crop point): independent of the phase
+    npts0 = [float(k) for k in range(-3, 4 if thorough else 3)]
+    nseqs = interval_seqs(npts0, 3)
+    ntvals = [None] + [k / 2.0 for k in range(-8, 9)]
+    run.explore("adjust_intervals, zero-crossing axis", mod, "shard_adjust",
+                [(ch, ntvals) for ch in core.chunks(nseqs, 32)])
     comps = [c for n in range(1, 9 if thorough else 8) for c in lib.compositions(n)]
     units = [(1.0, base), (0.5, base + 0.25)]
     run.explore("merge_labeled_intervals", mod, "shard_merge", [(ch, comps, units) for ch in core.chunks(comps, 32)])
